@@ -39,7 +39,35 @@ def special_case(rng, j):
     optkw = dict(rtol=float(rng.choice([1e-3, 1e-5, 1e-7])), atol=float(rng.choice([1e-6, 1e-9])))
     if rng.random() < 0.3:
         optkw["scheme"] = str(rng.choice(["rodasp", "rodas5p"]))
-    if j % 2 == 0:
+    if j % 4 == 1:
+        # the event function is exactly zero at the end of an accepted step (the step sizes are dyadic and y' = const, so every
+        # proposed step is accepted): -, 0, + is a sign change and has to be reported; in fixed-step mode too
+        pname = "ramp"
+        t0 = float(rng.choice([0.0, 1.0, -2.0]))
+        h = float(rng.choice([0.5, 0.25, 0.125]))
+        k = int(rng.integers(1, 4))
+        optkw = dict(rtol=1e-3, atol=1e-6, hinit=h)
+        if rng.random() < 0.5:
+            optkw["fix_h"] = True
+        else:
+            optkw["hmax"] = h
+        tspan = [t0, t0 + 8 * h] if rng.random() < 0.6 else [float(x) for x in np.linspace(t0, t0 + 8 * h, 5)]
+        specs = [(t0 + k * h, int(rng.choice([0, 1])), bool(rng.random() < 0.6))]
+        return pname, tspan, tspan, optkw, specs, "zero_at_step_end"
+    if j % 4 == 3:
+        # fixed-step mode with a located non-terminal event: the step is cut at the event, the grid is shifted, the run still ends at tend
+        pname = str(rng.choice(["decay", "ramp", "osc"]))
+        t0 = float(rng.choice([0.0, 0.25, -1.5]))
+        n = int(rng.integers(7, 40))
+        span = float(rng.choice([1.0, 2.0, 4.0]))
+        h = span / n if rng.random() < 0.5 else float(rng.choice([0.1, 0.05, 0.3, 0.125]))
+        optkw = dict(rtol=1e-3, atol=1e-6, hinit=h, fix_h=True)
+        tspan = [t0, t0 + span]
+        specs = [(t0 + span * float(rng.choice([0.31, 0.5, 0.77])), 0, False)]
+        if rng.random() < 0.4:
+            specs.append((t0 + span * 0.9, 0, bool(rng.random() < 0.5)))
+        return pname, tspan, tspan, optkw, specs, "fixed_step_with_event"
+    if j % 4 == 0:
         a = int(rng.choice([0, -2, 10, 3]))
         n = int(rng.integers(3, 12))
         c = a + float(rng.integers(1, n)) + float(rng.choice([0.0816, 0.5, 0.93, 0.25]))
@@ -143,7 +171,7 @@ def run(rep, tier, seed):
         if np.any(np.diff(te) < 0):
             bad.append(f"reported event times are not ascending: {list(te)}")
         # completeness and terminality
-        if not on_grid:
+        if True:       # crossings that coincide with a step end included: -, 0, + is a sign change (reported by the step that leaves the zero)
             if [i for _, i in spec] != ie:
                 bad.append(f"reported components {ie}, the permitted sign changes in the span are {[i for _, i in spec]} (in time order)")
             if not any(specs[i][2] for i in ie) and getattr(sol.stats, "ret", None) != "failed" and T[-1] != tend:
@@ -207,10 +235,12 @@ def run(rep, tier, seed):
             for a_ in (1.0, 3.0, -0.5):
                 for scheme in (("rodas4",) if tier == "quick" else ("rodas4", "rodasp", "rodas5p")):
                     nosc += 1
-                    def ev_nl(t, y, t0=t0, delta=delta, a_=a_):
+                    # the scale of an event function carries no meaning: 1e-16 * g has the same sign changes as g
+                    scale_ = 1.0 if (delta < 1e-4 or a_ == 1.0) else (1e-16 if a_ == 3.0 else 1e-10)
+                    def ev_nl(t, y, t0=t0, delta=delta, a_=a_, scale_=scale_):
                         s_ = y[0] - t0
-                        return np.array([(s_ - delta) * (1.0 + a_ * s_ + s_ * s_)]), np.array([False]), np.array([0.0])
-                    case = dict(problem="y' = 1, y(t0) = t0; event g = (s - delta)(1 + a s + s^2), s = y - t0", t0=t0, delta=delta, a=a_, scheme=scheme,
+                        return np.array([scale_ * (s_ - delta) * (1.0 + a_ * s_ + s_ * s_)]), np.array([False]), np.array([0.0])
+                    case = dict(problem="y' = 1, y(t0) = t0; event g = scale (s - delta)(1 + a s + s^2), s = y - t0", scale=scale_, t0=t0, delta=delta, a=a_, scheme=scheme,
                                 tspan=[t0, t0 + 2.0])
                     try:
                         snl = RC.quiet(Rodas, ramp_nl, [t0, t0 + 2.0], np.array([t0]), Opt(scheme=scheme, rtol=1e-5, atol=1e-8, event=ev_nl))
